@@ -46,6 +46,29 @@ def add_canaries(unit):
     return n
 
 
+def vname(unit, fid):
+    """name Verus reports for the generated function with registry id `fid`"""
+    parts = fid.split('::')
+    out = []
+    for seg in parts[1:-1]:
+        if '@' in seg:
+            seg = seg.split('@', 1)[1]
+        if seg.startswith('trait_'):
+            seg = seg[6:]
+        m = re.match(r'(.*)\[(.*)\]$', seg)
+        if m:
+            seg = '%s__%s' % (m.group(1), m.group(2))
+        out.append(seg)
+    return '::'.join(['unit_' + unit.replace('_canary', ''), parts[0]] + out + [parts[-1]])
+
+
+def reached_fns(unit_name, g, res):
+    """registry ids of the functions the verifier actually ran (an error such as `loop must have a decreases clause`
+    aborts the rest of its module: those functions are neither verified nor refuted)"""
+    names = set(f['function'].replace('_canary::', '::', 1) for f in (res.get('function_breakdown') or []))
+    return set(f['id'] for f in g.functions if vname(unit_name, f['id']) in names)
+
+
 def run_unit(name, factory, canaries=True, rlimit=30):
     out = {'unit': name, 'infra': [], 'ok': False}
     t0 = time.time()
@@ -75,6 +98,7 @@ def run_unit(name, factory, canaries=True, rlimit=30):
         out['tried_body'] = sorted(tried - rejected)
         out['tried_body_rejected'] = sorted(rejected)
     out.update({'g': g, 'res': res, 'cl': cl})
+    out['reached'] = reached_fns(name, g, res)
     if res['json'] is None or res['vir_error'] or cl['infra']:
         for i in cl['infra']:
             out['infra'].append('verus front end / resource: %s (fn %s, generated line %s)' % (i['message'][:300], i['fn'], i['line']))
@@ -114,7 +138,10 @@ def run_unit(name, factory, canaries=True, rlimit=30):
                             'prelude_consistent__canary' in c.get('rendered', '')
                             for c in cc['failed_clauses'])
             out['canaries_failed_as_expected'] = len(expected & failed_fns) + (1 if ok_global else 0)
-            missing = sorted(expected - failed_fns)
+            # vacuity = the verifier RAN the function and proved `assert(false)`; functions it never reached
+            # (module aborted by an error elsewhere) are already undecided in the base run
+            reached_c = reached_fns(name, gc, rc)
+            missing = sorted(f_ for f_ in (expected - failed_fns) if f_ in reached_c)
             out['canary_wall_s'] = rc['wall_s']
             if cc['infra']:
                 out['infra'].append('canary run: ' + cc['infra'][0]['message'][:300])
@@ -148,11 +175,17 @@ def obligations_for(prop, ur):
     internal_failed = {}
     for c in cl['internal']:
         internal_failed.setdefault(c['fn'], c)
+    reached = ur.get('reached')
+    body_fns = set(f['id'] for f in g.functions if f['has_body'] and not f['external_body'])
+
+    def unreached(fid):
+        return reached is not None and fid in body_fns and fid not in reached
+
     for m in g.marks:
         if prop in m['props']:
-            st = 'failed' if m['id'] in failed_ids else 'discharged'
+            st = 'failed' if m['id'] in failed_ids else ('undecided' if unreached(m['fn']) else 'discharged')
             obs.append({'id': m['id'], 'kind': 'postcondition', 'fn': m['fn'], 'status': st, 'text': m['text'],
-                        'diag': failed_ids.get(m['id'])})
+                        'diag': failed_ids.get(m['id']), 'unreached': st == 'undecided'})
     # a trait clause failing inside an implementation: counts for the properties the clause is stated for and for
     # those of the implementing function, whether or not that function is registered (a change may ADD a method
     # that overrides a verified default)
@@ -200,10 +233,10 @@ def obligations_for(prop, ur):
                 else:
                     obs.append({'id': fid + '#trait-contract', 'kind': 'postcondition(inherited)', 'fn': fid, 'status': 'discharged',
                                 'text': 'transducer contract of the shim trait method (DESIGN 3.3)', 'diag': None})
-            st = 'failed' if fid in safety_failed else 'discharged'
+            st = 'failed' if fid in safety_failed else ('undecided' if unreached(fid) else 'discharged')
             obs.append({'id': fid + '#safe', 'kind': 'safety', 'fn': fid, 'status': st,
                         'text': 'callee preconditions, index bounds, arithmetic overflow, unwrap',
-                        'diag': safety_failed.get(fid)})
+                        'diag': safety_failed.get(fid), 'unreached': st == 'undecided'})
             if fid in internal_failed and st == 'discharged':
                 obs.append({'id': fid + '#proof', 'kind': 'proof-internal', 'fn': fid, 'status': 'undecided',
                             'text': 'loop invariant / ghost assertion', 'diag': internal_failed.get(fid)})
@@ -314,7 +347,7 @@ def check_property(prop, tier, seed):
         for i in infra:
             log('INFRA: ' + i)
         for ob in undecided:
-            log('UNDECIDED (proof-internal, no semantic obligation failed): %s' % ob['id'])
+            log('UNDECIDED (%s): %s' % ('verifier did not reach this function' if ob.get('unreached') else 'proof-internal, no semantic obligation failed', ob['id']))
         for l in vio_lines:
             log(l)
         return 1
@@ -322,7 +355,7 @@ def check_property(prop, tier, seed):
         for i in infra:
             log('INFRA: ' + i)
         for ob in undecided:
-            log('UNDECIDED (proof needs maintenance, no semantic obligation failed): %s' % ob['id'])
+            log('UNDECIDED (%s): %s' % ('the verifier did not reach this function: an error elsewhere aborted its module' if ob.get('unreached') else 'proof needs maintenance, no semantic obligation failed', ob['id']))
             d = ob.get('diag') or {}
             if d.get('rendered'):
                 log('  ' + d['rendered'].strip().replace('\n', '\n  ')[:800])
